@@ -1,9 +1,19 @@
 import LocustModel.Query.Sql
+import LocustModel.Query.Filter
+import LocustModel.Lemmas.C03Order
+import LocustModel.Lemmas.C03Cmp
+import LocustModel.Lemmas.C03Where
+import LocustModel.Lemmas.C03Example
 /-
   C03 — WHERE keeps exactly the rows for which the predicate is true.  (property theorems)
+
+  `LM.Filter` is the implementation model (mirror of compile_expr / codec.rs / the comparison, boolean, null-map and
+  filter operators), `LM.Sql` the specification (Kleene evaluator).  See docs/C03.md for the map Rust fn → Lean def.
 -/
 namespace LM.C03
-open LM LM.Sql
+open LM LM.Sql LM.Filter LM.C03L LM.C03W
+
+/-! ### The specification itself -/
 
 /-- Characterisation of the specification's filter: whenever it yields a result, that result is
     exactly the rows for which the predicate is true, in table order, for tables of any length. -/
@@ -29,23 +39,221 @@ theorem C03_null_not_true (i2f : Int → Nat) (e : Expr) (r : Row) (h : eval i2f
     keep i2f (some e) r = .ok false := by
   simp [keep, h]
 
-/-- Kleene laws the specification's connectives satisfy (the "combine as usual" of the property). -/
-theorem C03_or_true_absorbs (v : Val) (hv : v = .null ∨ ∃ i, v = .int i) :
-    evalOr (.int 1) v = boolVal true ∧ evalOr v (.int 1) = boolVal true := by
-  rcases hv with h | ⟨i, h⟩ <;> subst h <;> simp [evalOr, boolVal]
-
-theorem C03_and_false_absorbs (v : Val) (hv : v = .null ∨ ∃ i, v = .int i) :
-    evalAnd (.int 0) v = boolVal false ∧ evalAnd v (.int 0) = boolVal false := by
-  rcases hv with h | ⟨i, h⟩
-  · subst h; exact ⟨rfl, rfl⟩
-  · subst h
-    refine ⟨rfl, ?_⟩
-    by_cases hi : i = 0
-    · subst hi; rfl
-    · unfold evalAnd; split <;> simp_all
-
 example : filterRows (fun _ => 0) (some (.cmp .lt (.col 0) (.lit (.int 5))))
     [[.int 1], [.null], [.int 9]] = .ok [[.int 1]] := by
   simp [filterRows, keep, eval, bind2, evalCmp, boolVal, cmpInt]
+
+/-! ### Comparisons on encoded data -/
+
+/-- The registry's lowering (GT = less_than(rhs, lhs), GTE = less_than_equals(rhs, lhs)) implements all six operators.
+    `cmpVia op a b` = what the executor computes for `a op b` after that lowering. -/
+theorem C03_lower_int (op : CmpOp) (a b : Int) : cmpVia op a b = cmpInt op a b := lower_int op a b
+
+/-- Offset-encoded integer columns (`Add(t, o)`, stored value `e = v - o`, `t` ∈ u8/u16/u32 so `e` lies strictly
+    inside i64): for EVERY constant `c` — inside, at the edges of, outside the column's range, or so far away that
+    `c - o` is not an i64 — `encode_int` does not fault, and comparing the stored value with the encoded constant
+    gives the same answer as comparing the decoded value with the constant, for all six operators and both
+    operand orders. -/
+theorem C03_enc_cmp_int (op : CmpOp) (t : ET) (o v c : Int)
+    (hv : I64_MIN < v - o ∧ v - o < I64_MAX) :
+    encodeInt [.add t o] c = .ok (satI64 (c - o))
+    ∧ cmpVia op (v - o) (satI64 (c - o)) = cmpInt op v c
+    ∧ cmpVia op (satI64 (c - o)) (v - o) = cmpInt op c v := enc_cmp_int op t o v c hv
+
+example : cmpVia .lt ((3 : Int) - (-5)) (satI64 (9223372036854775807 - (-5))) = cmpInt .lt 3 9223372036854775807 :=
+  (C03_enc_cmp_int .lt .u8 (-5) 3 9223372036854775807 (by unfold I64_MIN I64_MAX; omega)).2.1
+
+/-- Cast-encoded integer columns (`ToI64(t)`): the constant is used as is. -/
+theorem C03_enc_cmp_int_cast (t : ET) (c : Int) : encodeInt [.toI64 t] c = .ok c := rfl
+
+/-- The stored values of a narrow (u8/u16/u32) offset column satisfy the hypothesis of `C03_enc_cmp_int`. -/
+theorem C03_narrow_inside_i64 (e : Int) (h : inU 8 e ∨ inU 16 e ∨ inU 32 e) : I64_MIN < e ∧ e < I64_MAX :=
+  narrow_inside_i64 e h
+
+/-- Dictionary-encoded string columns (sorted dictionary `d`, stored value = position of the string): for every
+    constant `c` — an entry of the dictionary, or absent and lying before the first / between two / after the last
+    entry — comparing the stored index with `InverseDictLookup(c, rounding(op, side))` gives the same answer as
+    comparing the strings, for all six operators and both operand orders. -/
+theorem C03_enc_cmp_str (op : CmpOp) (d : List Bytes) (hs : SortedDict d) (s c : Bytes) (hm : s ∈ d) :
+    cmpVia op (dictIndex d (.str s)) (inverseDictLookup d (dictConstRounding op false) c) = cmpBytes op s c
+    ∧ cmpVia op (inverseDictLookup d (dictConstRounding op true) c) (dictIndex d (.str s)) = cmpBytes op c s :=
+  enc_cmp_str op d hs s c hm
+
+example : cmpVia .lt (dictIndex [[98], [100], [102]] (.str [98]))
+    (inverseDictLookup [[98], [100], [102]] (dictConstRounding .lt false) [99]) = cmpBytes .lt [98] [99] :=
+  (C03_enc_cmp_str .lt [[98], [100], [102]] (by simp [SortedDict, bytesLt]) [98] [99] (by simp)).1
+
+/-! ### NULL handling of comparisons -/
+
+/-- The null map of a comparison result: NULL exactly where an operand is NULL (CombineNullMaps = bitwise and of the
+    presence maps; PropagateNullability when only one side is nullable; none when neither is). -/
+theorem C03_null_cmp (op : CmpOp) (a b : Data) (lp rp : Option (List Bool)) (poison : Bool) :
+    (cmpExec op a b lp rp poison).present = combinePresent lp rp
+    ∧ (∀ p q : List Bool, combinePresent (some p) (some q) = some (List.zipWith (· && ·) p q))
+    ∧ (∀ p : List Bool, combinePresent (some p) none = some p ∧ combinePresent none (some p) = some p) := by
+  refine ⟨?_, fun _ _ => rfl, fun _ => ⟨rfl, rfl⟩⟩
+  unfold cmpExec; split <;> rfl
+
+/-- Filter / NullableFilter keep exactly the rows whose filter cell is TRUE (`cellsTrue`: present and non-zero): a NULL
+    cell (present = false) never keeps its row, whatever the data byte under it is.  All lengths.
+    (`idxTrue bs k` = positions of `true` in `bs`, numbered from `k`.) -/
+theorem C03_filter_apply (bits : List Bool) (present : Option (List Bool)) (k : Nat) :
+    keptIdx bits present k = idxTrue (cellsTrue bits present) k := filter_apply bits present k
+
+/-- Projecting the kept positions yields exactly the rows the row-level predicate keeps, in table order. -/
+theorem C03_filter_rows (rows : List Row) (keep : Row → Bool) (k : Nat) (pre : List Row) (hk : pre.length = k) :
+    (idxTrue (rows.map keep) k).map (fun i => (pre ++ rows).getD i []) = rows.filter keep := by
+  induction rows generalizing k pre with
+  | nil => rfl
+  | cons r rs ih =>
+    simp only [List.map_cons, idxTrue, List.filter_cons]
+    have hstep := ih (k + 1) (pre ++ [r]) (by simp [hk])
+    simp only [List.append_assoc, List.singleton_append] at hstep
+    by_cases hr : keep r = true
+    · simp only [hr, if_true, List.map_cons, hstep]
+      congr 1
+      subst hk
+      simp
+    · have hr' : keep r = false := by simpa using hr
+      simp only [hr', Bool.false_eq_true, if_false]
+      exact hstep
+
+example : keptIdx [true, true, false, true] (some [true, false, true, true]) 0 = [0, 3] := by decide
+
+/-! ### AND / OR -/
+
+/-- The engine's AND / OR on one row: operate on the data bits, result NULL iff an operand is NULL
+    (`boolNode` = BoolAnd / BoolOr + combine_nulls). `none` = NULL. -/
+def engineAnd : Option Bool → Option Bool → Option Bool
+  | some a, some b => some (a && b)
+  | _, _ => none
+def engineOr : Option Bool → Option Bool → Option Bool
+  | some a, some b => some (a || b)
+  | _, _ => none
+
+def cellVal : Option Bool → Val
+  | none => .null
+  | some b => .int (if b then 1 else 0)
+
+/-- Is the specification's value TRUE? -/
+def evTrue : Ev → Bool
+  | .val (.int i) => i != 0
+  | _ => false
+
+/-- `boolNode` computes `engineAnd` / `engineOr` cell by cell (both operands boolean buffers of a common length). -/
+theorem C03_and_or_model (isOr : Bool) (l r : Out) (hl : l.ty.decoded = .boolean) (hr : r.ty.decoded = .boolean) :
+    ∃ out, boolNode isOr l r = .ok out
+      ∧ out.data = .bits (if isOr then orBits (bitsOf l.data) (bitsOf r.data) else andBits (bitsOf l.data) (bitsOf r.data))
+      ∧ out.present = combinePresent l.present r.present ∧ out.ty.decoded = .boolean := by
+  simp [boolNode, hl, hr, boolTy]
+
+/-- AND: a row is kept by the engine's AND iff the Kleene AND of the operands is TRUE — for all operands,
+    including NULLs (the engine's NULL where Kleene says FALSE is not observable by a filter). -/
+theorem C03_and_or (x y : Option Bool) :
+    (engineAnd x y == some true) = evTrue (evalAnd (cellVal x) (cellVal y)) := by
+  cases x with
+  | none => cases y with
+    | none => rfl
+    | some b => cases b <;> rfl
+  | some a => cases y with
+    | none => cases a <;> rfl
+    | some b => cases a <;> cases b <;> rfl
+
+/-- The full statement for OR (what the property demands): the engine's OR is TRUE exactly when Kleene's is. -/
+def C03_or_statement : Prop :=
+  ∀ x y : Option Bool, (engineOr x y == some true) = evTrue (evalOr (cellVal x) (cellVal y))
+
+/-- OR, partial: if no operand is NULL the engine's OR is exactly Kleene's OR. -/
+theorem C03_or_partial (a b : Bool) :
+    evalOr (cellVal (some a)) (cellVal (some b)) = .val (cellVal (engineOr (some a) (some b))) := by
+  cases a <;> cases b <;> rfl
+
+/-- OR, refuted (open finding C03-and-or-null): `NULL OR TRUE` is TRUE, the engine yields NULL and drops the row.
+    Witness on the real code: `n < 10 OR id > 5` on rows whose `n` is NULL. -/
+theorem C03_or_refuted : ¬ C03_or_statement := by
+  intro h
+  have := h none (some true)
+  simp [engineOr, cellVal, evalOr, boolVal, evTrue] at this
+
+example : engineOr none (some true) = none ∧ evTrue (evalOr (cellVal none) (cellVal (some true))) = true := by
+  constructor <;> rfl
+
+/-! ### The assembled theorem -/
+
+/-- WHERE keeps exactly the rows for which the predicate is true.
+    For every partition (column images of any of the modelled encodings: plain / cast / offset-encoded integers,
+    plain / dictionary-encoded strings, nullable or not, or absent), every table length and every predicate `e` of the
+    supported fragment `Frag` — comparisons (all six operators, either operand order) of a column with ANY constant of
+    its type, IS [NOT] NULL, AND / NOT without restriction, OR of operands that cannot be NULL — whenever the engine
+    model answers with rows (`implFilter … = ok idx`; error values delimit the fragment), these are exactly the
+    positions of the rows the Kleene specification keeps, in table order.
+    Proof: induction on the predicate with the invariant `C03W.Inv` (cell-exact for non-nullable buffers, TRUE-exact for
+    nullable ones), using `C03_enc_cmp_int`, `C03_enc_cmp_str`, `C03_null_cmp`, `C03_and_or`, `C03_filter_apply`. -/
+theorem C03_where (fp : FP) (part : Part) (rows : List Row) (hlen : part.len = rows.length) (e : Expr)
+    (hf : Frag fp part rows e) (idx : List Nat) (h : implFilter fp part e = .ok idx) :
+    ∃ keep : Row → Bool, idx = idxTrue (rows.map keep) 0
+      ∧ filterRows fp.i2f (some e) rows = .ok (rows.filter keep) :=
+  where_of_frag fp part rows hlen e hf idx h
+
+
+/-- Constant predicates (`WHERE 0`, `WHERE 1`, …; a query without WHERE clause has the filter `1`): the integer constant
+    0 keeps no row, every other integer keeps all rows — in the engine model (`where_filter`) and in the specification. -/
+theorem C03_where_const (fp : FP) (part : Part) (rows : List Row) (c : Int) :
+    implFilter fp part (.lit (.int c)) = .ok (if c = 0 then [] else List.range part.len)
+    ∧ filterRows fp.i2f (some (.lit (.int c))) rows = .ok (if c = 0 then [] else rows) := by
+  constructor
+  · by_cases hc : c = 0 <;> simp [implFilter, compile, whereFilter, scalarTy, hc]
+  · induction rows with
+    | nil => by_cases hc : c = 0 <;> simp [filterRows, hc]
+    | cons r rs ih =>
+      by_cases hc : c = 0
+      · subst hc; simp at ih; simp [filterRows, keep, eval, ih]
+      · simp [hc] at ih; simp [filterRows, keep, eval, ih, hc]
+
+example : implFilter Ex.fp Ex.part (.lit (.int 0)) = .ok [] ∧ implFilter Ex.fp Ex.part (.lit (.int 1)) = .ok [0, 1, 2] :=
+  ⟨(C03_where_const Ex.fp Ex.part Ex.rows 0).1, (C03_where_const Ex.fp Ex.part Ex.rows 1).1⟩
+
+/-- The hypotheses of `C03_where` are satisfiable, and its conclusion is the expected one on the example:
+    rows 0 and 2 are kept (row 1 has `c1` NULL), by the engine model and by the specification. -/
+example : ∃ keep : Row → Bool, [0, 2] = idxTrue (Ex.rows.map keep) 0
+    ∧ filterRows Ex.fp.i2f (some Ex.pred) Ex.rows = .ok (Ex.rows.filter keep) :=
+  C03_where Ex.fp Ex.part Ex.rows rfl Ex.pred Ex.frag [0, 2] Ex.impl
+
+/-- The fragment without the restriction on OR. -/
+inductive FragFull (fp : FP) (part : Part) (rows : List Row) : Expr → Prop where
+  | atom (e : Expr) : Atom fp part rows e → FragFull fp part rows e
+  | and (l r : Expr) : FragFull fp part rows l → FragFull fp part rows r → FragFull fp part rows (.and l r)
+  | or (l r : Expr) : FragFull fp part rows l → FragFull fp part rows r → FragFull fp part rows (.or l r)
+  | not (e : Expr) : FragFull fp part rows e → FragFull fp part rows (.not e)
+
+/-- The full-strength statement of the property on the model (OR unrestricted). -/
+def C03_where_statement : Prop :=
+  ∀ (fp : FP) (part : Part) (rows : List Row), part.len = rows.length → ∀ e, FragFull fp part rows e →
+    ∀ idx, implFilter fp part e = .ok idx →
+      ∃ keep : Row → Bool, idx = idxTrue (rows.map keep) 0 ∧ filterRows fp.i2f (some e) rows = .ok (rows.filter keep)
+
+/-- Refutation of the full statement (open finding C03-and-or-null, DESIGN §8 #2): on the example partition
+    `c1 < 10 OR id > 0` — the specification keeps all three rows (row 1: NULL OR TRUE = TRUE), the engine model keeps
+    rows 0 and 2 only.  The same witness fails on the real code (harness corpus class `corpus:or-null`). -/
+theorem C03_where_refuted : ¬ C03_where_statement := by
+  intro h
+  let e : Expr := .or (.cmp .lt (.col 1) (.lit (.int 10))) (.cmp .gt (.col 0) (.lit (.int 0)))
+  have hf : FragFull Ex.fp Ex.part Ex.rows e :=
+    FragFull.or _ _ (FragFull.atom _ (Atom.intRight .lt 1 10 Ex.col1 _ Ex.ref1 Ex.intCol1))
+      (FragFull.atom _ (Atom.intRight .gt 0 0 Ex.col0 _ Ex.ref0 Ex.intCol0))
+  have himpl : implFilter Ex.fp Ex.part e = .ok [0, 2] := by
+    simp only [implFilter, compile, e, Ex.ref0, Ex.ref1]
+    rfl
+  obtain ⟨kp, h1, h2⟩ := h Ex.fp Ex.part Ex.rows rfl e hf [0, 2] himpl
+  have hspec : filterRows Ex.fp.i2f (some e) Ex.rows = .ok Ex.rows := by
+    rfl
+  rw [hspec] at h2
+  have hl := idxTrue_length Ex.rows kp 0
+  rw [← h1] at hl
+  have : (Ex.rows.filter kp).length = 3 := by
+    have := congrArg (fun r => match r with | Res.ok l => l.length | _ => 0) h2
+    simpa [Ex.rows] using this.symm
+  rw [this] at hl
+  simp at hl
 
 end LM.C03
